@@ -17,7 +17,7 @@ func init() {
 	Registry["C16"] = c16
 	Metas["C16"] = Meta{Level: "other", NeedCG: true,
 		Technique: "static analysis: receiver-provenance of every IncrementAccum call, who-may-write + effect-set check of the cached fields, finite-domain decision table of CompareAccum, hidden-state (non-persisted field) lint on the persisted validator set, slot-bookkeeping obligations of the priority queue",
-		Explain:   "Static analysis of gemmill/types/validator_set.go and its callers. Decided: (R1) every IncrementAccum call has a receiver that is a fresh Copy()/NewValidatorSet()/literal on all paths (never a shared set loaded from a field); (R2) the set's slice is mutated only by Add/Update/Remove (and constructors), and every such mutation path that reports success stores proposer=nil and totalVotingPower=0; totalVotingPower has no other non-zero writer than its lazy getter; accessors hand out copies; (R3) CompareAccum's decision table over (accum order x address order x nil receiver) is the strict total order 'higher accum, ties by lower address' and panics only on identical addresses; accumComparable.Less is strict '>'; (R4) no non-persisted field of the persisted ValidatorSet carries state that cannot be recomputed (only lazy getters and copies may write it); (R5) Add keeps the slice sorted and duplicate-free, NewValidatorSet sorts before first use; (R6) the go-common priority queue behind IncrementAccum keeps pq[k].index == k in Push/Swap, and Update/Heap.Update/Peek/Less/Pop address the root and the recorded slot. NOT decided: the proportionality counts, batched-vs-single increment equality (numeric; an independent experiment during seeding showed IncrementAccum(k) already differs from k x IncrementAccum(1) on the pinned tree — outside what a static rule can decide), overflow.",
+		Explain:   "Static analysis of gemmill/types/validator_set.go and its callers. Decided: (R1) every IncrementAccum call has a receiver that is a fresh Copy()/NewValidatorSet()/literal on all paths (never a shared set loaded from a field); (R2) the set's slice is mutated only by Add/Update/Remove (and constructors), and every such mutation path that reports success stores proposer=nil and totalVotingPower=0; totalVotingPower has no other non-zero writer than its lazy getter; accessors hand out copies; (R3) CompareAccum's decision table over (accum order x address order x nil receiver) is the strict total order 'higher accum, ties by lower address' and panics only on identical addresses; accumComparable.Less is strict '>'; (R4) no non-persisted field of the persisted ValidatorSet carries state that cannot be recomputed (only lazy getters and copies may write it); (R5) Add keeps the slice sorted and duplicate-free, NewValidatorSet sorts before first use; (R6) the go-common priority queue behind IncrementAccum keeps pq[k].index == k in Push/Swap, and Update/Heap.Update/Peek/Less/Pop address the root and the recorded slot. (R7) ExecBlock rotates by the constant 1, enterNewRound by round-cs.Round on its private copy, and Add/Update store copies. NOT decided: the proportionality counts, batched-vs-single increment equality (numeric; an independent experiment during seeding showed IncrementAccum(k) already differs from k x IncrementAccum(1) on the pinned tree — outside what a static rule can decide), overflow.",
 		Assume:    []string{"container/heap's Push/Fix/Pop are correct given the Interface contract checked by R6", "bytes.Compare is a total order on addresses"},
 	}
 }
